@@ -1,4 +1,4 @@
-#!/usr/bin/env python3
+#!/venv/bin/python
 """Apply every confirmed seeded change under /verif/seeded to a scratch worktree of /repo HEAD and
 run the checks against it (QV_REPO=<scratch>, no evidence written).  Prints which checks fire.
 
